@@ -28,15 +28,23 @@ func toBool(v reflect.Value) bool {
 	return b
 }
 
+// unwrapPtrInterface strips the pointers and interfaces around a value.
+// The depth is bounded: a value that refers to itself (x = nil; p = &x; *p = p)
+// is handed back still wrapped and is then not convertible.
+func unwrapPtrInterface(v reflect.Value) reflect.Value {
+	for i := 0; i < 64 && (v.Kind() == reflect.Ptr || v.Kind() == reflect.Interface); i++ {
+		v = v.Elem()
+	}
+	return v
+}
+
 // tryToBool attempts to convert the value 'v' to a boolean, returning
 // an error if it cannot. When converting a string, the function returns
 // true if the string nonempty and does not satisfy the condition for false
 // with parseBool https://golang.org/pkg/strconv/#ParseBool
 // and is not 0.0
 func tryToBool(v reflect.Value) (bool, error) {
-	for v.Kind() == reflect.Ptr || v.Kind() == reflect.Interface {
-		v = v.Elem()
-	}
+	v = unwrapPtrInterface(v)
 	switch v.Kind() {
 	case reflect.Float64, reflect.Float32:
 		return v.Float() != 0, nil
@@ -79,9 +87,7 @@ func toFloat64(v reflect.Value) float64 {
 // If it cannot (in the case of a non-numeric string, a struct, etc.)
 // it returns 0.0 and an error.
 func tryToFloat64(v reflect.Value) (float64, error) {
-	for v.Kind() == reflect.Ptr || v.Kind() == reflect.Interface {
-		v = v.Elem()
-	}
+	v = unwrapPtrInterface(v)
 	switch v.Kind() {
 	case reflect.Float64, reflect.Float32:
 		return v.Float(), nil
@@ -113,9 +119,7 @@ func toInt64(v reflect.Value) int64 {
 // If it cannot (in the case of a non-numeric string, a struct, etc.)
 // it returns 0 and an error.
 func tryToInt64(v reflect.Value) (int64, error) {
-	for v.Kind() == reflect.Ptr || v.Kind() == reflect.Interface {
-		v = v.Elem()
-	}
+	v = unwrapPtrInterface(v)
 	switch v.Kind() {
 	case reflect.Float64, reflect.Float32:
 		return int64(v.Float()), nil
@@ -156,9 +160,7 @@ func toInt(v reflect.Value) int {
 // If it cannot (in the case of a non-numeric string, a struct, etc.)
 // it returns 0 and an error.
 func tryToInt(v reflect.Value) (int, error) {
-	for v.Kind() == reflect.Ptr || v.Kind() == reflect.Interface {
-		v = v.Elem()
-	}
+	v = unwrapPtrInterface(v)
 	switch v.Kind() {
 	case reflect.Float64, reflect.Float32:
 		return int(v.Float()), nil
